@@ -47,7 +47,7 @@ func hostileAddrs() [][]byte {
 			socksAddrDomain(long, port),
 			socksAddrDomain(long[:254], port),
 			socksAddrDomain(lbl63+"."+lbl63+"."+lbl63+"."+lbl63[:61], port), // 253 bytes, legal DNS name
-			socksAddrDomain(lbl63+"b.com", port),                             // 64-byte label
+			socksAddrDomain(lbl63+"b.com", port),                            // 64-byte label
 			socksAddrDomain("", port),                                       // empty name
 			socksAddrDomain(".", port),
 			socksAddrDomain("..", port),
